@@ -1160,3 +1160,180 @@ Proof.
   - intros k0 Hk0. apply H2. apply Hsub. exact Hk0.
   - exact H3.
 Qed.
+
+(* ----------------------------- offered features are within the declared *)
+(* The feature list of a definition restricts what its basin offers. *)
+Definition feats_ok (rb : rbasin) : Prop :=
+  forall fs, b_feats (rb_b rb) = Some fs ->
+             exists fs', rb_feats rb = Some fs' /\ incl fs' fs.
+
+Lemma mk_rb_feats_ok : forall i f keys b t, feats_ok (mk_rb i f keys b t).
+Proof.
+  intros i f keys b t fs Hfs. cbn [rb_b rb_feats mk_rb] in *.
+  destruct (kclass (b_kind b)).
+  - eexists. split; [reflexivity|]. unfold internal_feats. rewrite Hfs.
+    destruct (b_locs b) as [|[j|j|] ls]; try (intros x []).
+    intros x Hx. apply filter_In in Hx. tauto.
+  - exists fs. split; [exact Hfs | apply incl_refl].
+  - exists fs. split; [exact Hfs | apply incl_refl].
+  - exists fs. split; [exact Hfs | apply incl_refl].
+  - exists fs. split; [exact Hfs | apply incl_refl].
+Qed.
+
+Lemma build_feats_ok : forall w fuel fm i ign t,
+    build w fuel fm i ign = Some t -> Forall feats_ok (tree_edges t).
+Proof.
+  intros w fuel; induction fuel as [|k IH]; intros fm i ign t;
+    [cbn [build]; discriminate | rewrite build_S].
+  destruct (retrieve w fm i ign) as [rbs pr] eqn:E.
+  destruct (build_kids (build w k) rbs) as [kids|] eqn:Ek; [|discriminate].
+  intros H; inversion H; subst. cbn [tree_edges].
+  eapply build_kids_edges; [| |exact Ek].
+  - intros rb Hin.
+    assert (Hin' : In rb (fst (retrieve w fm i ign))) by (rewrite E; exact Hin).
+    destruct (retrieve_spec _ _ _ _ _ Hin') as [f [b [_ [_ [[t0 ->] _]]]]].
+    apply mk_rb_feats_ok.
+  - intros rb fm' j t' _ Hb. eapply IH; exact Hb.
+Qed.
+
+Lemma ffb_attrib : forall w f acc feat,
+    In feat (ffb w f acc) ->
+    In feat acc
+    \/ exists rb ot, In (rb, ot) (kids_list f) /\ rb_avail rb = true
+                     /\ (forall fs', rb_feats rb = Some fs' -> In feat fs').
+Proof.
+  intros w f; induction f as [|rb rest IH|rb t rest IH] using forest_ind;
+    intros acc feat.
+  - cbn. auto.
+  - rewrite ffb_leaf. cbn [kids_list]. intros H.
+    destruct (IH _ _ H) as [Hacc | [rb' [ot [Hin R]]]].
+    + apply fb_step_In in Hacc. destruct Hacc as [Hacc | [Hav Hf]]; auto.
+      right. exists rb, None. split; [left; reflexivity|]. split; [exact Hav|].
+      intros fs' Hfs. unfold leaf_feats in Hf. rewrite Hfs in Hf. exact Hf.
+    + right. exists rb', ot. split; [right; exact Hin | exact R].
+  - rewrite ffb_node. cbn [kids_list]. intros H.
+    destruct (IH _ _ H) as [Hacc | [rb' [ot [Hin R]]]].
+    + apply fb_step_In in Hacc. destruct Hacc as [Hacc | [Hav Hf]]; auto.
+      right. exists rb, (Some t). split; [left; reflexivity|].
+      split; [exact Hav|].
+      intros fs' Hfs. unfold node_feats in Hf. rewrite Hfs in Hf. exact Hf.
+    + right. exists rb', ot. split; [right; exact Hin | exact R].
+Qed.
+
+Lemma fget_attrib : forall w f fm i, finv w fm i f -> forall pass feat s,
+    fget w f pass feat = Some s ->
+    exists rb ot, In (rb, ot) (kids_list f) /\ rb_avail rb = true
+                  /\ (forall fs', rb_feats rb = Some fs' -> In feat fs').
+Proof.
+  intros w f; induction f as [|rb rest IH|rb t rest IH] using forest_ind;
+    intros fm i Hinv pass feat s.
+  - cbn. discriminate.
+  - destruct Hinv as [Hok [Hc Hrest]]. rewrite fget_leaf. cbn [kids_list].
+    destruct (pass_ok pass rb && memz feat (leaf_feats rb) && verify w rb
+              && is_internal rb) eqn:Econd.
+    + intros _. exists rb, None. split; [left; reflexivity|].
+      apply andb_true_iff in Econd. destruct Econd as [Econd Hint].
+      apply andb_true_iff in Econd. destruct Econd as [Econd _].
+      apply andb_true_iff in Econd. destruct Econd as [_ Hmem].
+      apply memz_In in Hmem. split.
+      * unfold rb_avail, is_internal in *. unfold leaf_feats in Hmem.
+        destruct (rb_class rb); try discriminate.
+        destruct (rb_feats rb) as [fs|]; [|destruct Hmem].
+        destruct fs; [destruct Hmem | reflexivity].
+      * intros fs' Hfs. unfold leaf_feats in Hmem. rewrite Hfs in Hmem.
+        exact Hmem.
+    + intros H. destruct (IH fm i Hrest pass feat s H) as [rb' [ot [Hin R]]].
+      exists rb', ot. split; [right; exact Hin | exact R].
+  - destruct Hinv as [Hok [Hc [Hi Hrest]]]. rewrite fget_node.
+    cbn [kids_list].
+    assert (Hr : fget w rest pass feat = Some s ->
+      exists rb0 ot, In (rb0, ot) ((rb, Some t) :: kids_list rest)
+                     /\ rb_avail rb0 = true
+                     /\ (forall fs', rb_feats rb0 = Some fs' -> In feat fs')).
+    { intros H. destruct (IH fm i Hrest pass feat s H) as [rb' [ot [Hin R]]].
+      exists rb', ot. split; [right; exact Hin | exact R]. }
+    destruct (pass_ok pass rb && memz feat (node_feats w rb t) && verify w rb)
+             eqn:Econd; [|exact Hr].
+    destruct (tget w t feat) as [s'|]; [|exact Hr].
+    intros _. exists rb, (Some t). split; [left; reflexivity|].
+    apply andb_true_iff in Econd. destruct Econd as [Econd Hv].
+    apply andb_true_iff in Econd. destruct Econd as [_ Hmem].
+    apply memz_In in Hmem. split.
+    + eapply verify_avail; [eapply rb_child_some_class; eauto | exact Hv].
+    + intros fs' Hfs. unfold node_feats in Hmem. rewrite Hfs in Hmem.
+      exact Hmem.
+Qed.
+
+Definition tree_kids (t : tree) : forest :=
+  match t with Tree _ _ _ kids => kids end.
+
+(* what a dataset offers beyond its own events *)
+Definition offered (w : world) (t : tree) (feat : Z) : Prop :=
+  In feat (tfb w t)
+  \/ (exists s, tget w t feat = Some s
+                /\ ~ In feat (innate_of w (tree_file t))).
+
+(* Every feature a dataset lists as basin feature or serves from a basin is
+   attributable to one of its own available basins whose definition either
+   declares no feature list or declares this feature.  (Holds for the
+   dataset behind every basin as well: it is a built tree itself.) *)
+Lemma offered_within_declared : forall w fuel fm i ign t feat,
+    build w fuel fm i ign = Some t ->
+    offered w t feat ->
+    exists rb, In rb (map fst (kids_list (tree_kids t)))
+               /\ rb_avail rb = true
+               /\ (forall fs, b_feats (rb_b rb) = Some fs -> In feat fs).
+Proof.
+  intros w fuel fm i ign t feat Hb Hoff.
+  pose proof (build_inv _ _ _ _ _ _ Hb) as Hi.
+  pose proof (build_feats_ok _ _ _ _ _ _ Hb) as Hfo.
+  destruct t as [fm' j pr kids]. destruct Hi as [_ Hk].
+  cbn [tree_kids tree_edges tree_file] in *.
+  assert (Hfin : forall rb ot,
+             In (rb, ot) (kids_list kids) -> rb_avail rb = true ->
+             (forall fs', rb_feats rb = Some fs' -> In feat fs') ->
+             exists rb0, In rb0 (map fst (kids_list kids))
+                         /\ rb_avail rb0 = true
+                         /\ (forall fs, b_feats (rb_b rb0) = Some fs ->
+                                        In feat fs)).
+  { intros rb ot Hin Hav Hf. exists rb.
+    split; [apply in_map_iff; exists (rb, ot); auto|]. split; [exact Hav|].
+    intros fs Hfs. rewrite Forall_forall in Hfo.
+    destruct (kids_list_edges _ _ _ Hin) as [He _].
+    destruct (Hfo rb He fs Hfs) as [fs' [Hfs' Hincl]].
+    apply Hincl. apply Hf. exact Hfs'. }
+  destruct Hoff as [Hl | [s [Hg Hni]]].
+  - rewrite tfb_eq, sortdedup_In in Hl.
+    destruct (ffb_attrib _ _ _ _ Hl) as [[] | [rb [ot [Hin [Hav Hf]]]]].
+    eapply Hfin; eauto.
+  - rewrite tget_eq in Hg.
+    destruct (memz feat (innate_of w j)) eqn:Ei.
+    + exfalso. apply Hni. apply memz_In. exact Ei.
+    + assert (Hp : forall pass, fget w kids pass feat = Some s ->
+                                exists rb ot, In (rb, ot) (kids_list kids)
+                                  /\ rb_avail rb = true
+                                  /\ (forall fs', rb_feats rb = Some fs' ->
+                                                  In feat fs')).
+      { intros pass. eapply fget_attrib; eauto. }
+      destruct (fget w kids (Some TInternal) feat) eqn:E1.
+      * inversion Hg; subst. destruct (Hp _ E1) as [rb [ot [A [B C]]]].
+        eapply Hfin; eauto.
+      * destruct (fget w kids (Some TFile) feat) eqn:E2.
+        -- inversion Hg; subst. destruct (Hp _ E2) as [rb [ot [A [B C]]]].
+           eapply Hfin; eauto.
+        -- destruct (Hp _ Hg) as [rb [ot [A [B C]]]]. eapply Hfin; eauto.
+Qed.
+
+(* a definition that declares [1; 2; 5] on a file holding 1, 2 and 3:
+   3 is not offered, 5 is listed (declared) but cannot be read *)
+Definition w_declared : world :=
+  [mkFile (Some [97]) [0] [] [mkBasin 0 KFile 0 [Here 1%nat] (Some [1; 2; 5])];
+   mkFile (Some [97]) [1; 2; 3] [] []].
+
+Example ex_declared :
+  exists t, build w_declared (fuel_for w_declared) FHdf5 0 [] = Some t
+            /\ tfb w_declared t = [1; 2; 5]
+            /\ tget w_declared t 1 = Some 1
+            /\ tget w_declared t 3 = None
+            /\ tget w_declared t 5 = None.
+Proof. eexists. repeat split; vm_compute; reflexivity. Qed.
